@@ -28,7 +28,11 @@ _TYPED_DICT_MCS = type(types.new_class("_TypedDictSample", (TypedDict,), {}))
 
 
 def is_typed_dict_class(tp) -> bool:
-    return isinstance(tp, _TYPED_DICT_MCS)
+    if isinstance(tp, _TYPED_DICT_MCS):
+        return True
+    # `typing_extensions` has its own implementation of TypedDict to backport new features
+    typing_extensions = sys.modules.get("typing_extensions")
+    return typing_extensions is not None and isinstance(tp, type) and typing_extensions.is_typeddict(tp)
 
 
 _NAMED_TUPLE_METHODS = ("_fields", "_field_defaults", "_make", "_replace", "_asdict")
